@@ -6,9 +6,87 @@ TRUSTED_COMMON = [
     "harness (vh), line protocol, canonicaliser, modeld's op-line parser",
 ]
 
+
+POLICY_TRUSTED = [
+    "reference Junos configuration model (Model/Junos.lean: merge semantics of load-configuration with delete attributes, "
+    "first-match policy evaluation with protocol default accept) -- my reading of the Junos documentation (DESIGN.md Appendix B)",
+    "harness-side rendering of a configuration as a get-config reply (choice-ident/choice-value form; only & < > escaped in text) "
+    "and the generic XML-to-element-list conversion of the emitted payloads (quick-xml)",
+    "the event-level XML readers are covered by the reader properties (C13/C14/C16); here the reader is modelled on the abstract "
+    "configuration structure and tied to the real reader by the `plan read` / read-back rows",
+    "rpsl parser verdict (parsed / malformed) and generic-ip text<->value round trip are observed, not modelled",
+]
+POLICY_RULE = ("op `plan`: real Policies<Installed>::read_xml, Policies<Candidate>::read_xml, compare and write_xml through the "
+               "agent::verif facade. Cases: the 6x6 per-family shapes (old in {policy absent, term absent, non-empty} x new in "
+               "{empty, non-empty}) x 5 content relations (equal/subset/superset/disjoint/overlapping), 42 foreign (non-agent) "
+               "configurations for the reader, every failure kind of a marked statement x 4 installed shapes (40 annotation "
+               "breakages), then random histories of 2-6 consecutive runs over a 12-range universe per family with names "
+               "incl. XML metacharacters; per step: candidates, read, compare/render vs model (modulo HashMap/HashSet order), "
+               "reference-Junos application of the implementation's payloads, read-back through the real reader, second plan "
+               "with unchanged inputs; a case is distinct by (initial configuration, sequence of running configurations + IRR results)")
+
+# `variant=` names the model variant the correspondence rows are compared with: `pinned` = the code as it is in
+# /repo now (D9, D10, D15-names unrepaired). After the repairs land in /repo switch to `fixed` (or a three-letter
+# combination, see Drive/Policy.lean): the theorems are about `Cfg.fixed`.
 PENDING_REASON = {}
 
 PROPS = {
+    "C01": dict(
+        thm=["Bgpfu.Thm.C01"],
+        ops=[("plan", ["prop=C01", "variant=fixed"])],
+        level_text="Theorems over the model of the diff/patch pipeline and the reference Junos model, no bound on policies, ranges, "
+                   "names or runs: every state in the closure of the empty configuration under runs satisfies a decidable "
+                   "well-formedness predicate (reachable_agentState); every such state is read back successfully and faithfully "
+                   "(readback_total); from every such state, for every evaluated map and EVERY permutation of the emitted update "
+                   "list, loading succeeds, every evaluated policy accepts exactly its evaluated IPv4/IPv6 range sets "
+                   "(structurally and under first-match route evaluation) and ends in reject, no unmanaged policy is left, "
+                   "and the result is again such a state (run_converges, run_accepts_exactly); a further run with unchanged "
+                   "inputs is semantically a no-op (run_idempotent); induction over any sequence of runs (runs_history). "
+                   "Counter-examples for the pinned writer/readers (readback_pinned_cex, rerun_pinned_cex, raw_names_cex).",
+        level_note="The theorems are for Cfg.fixed (a family empty before and after is not written; names unescaped). The real "
+                   "code is tied to the model by the correspondence run; the C01 predicate is additionally evaluated on the "
+                   "state produced by the implementation's own payloads (incl. read-back through the real reader and a second "
+                   "plan), which is where defects D9 (empty <term>) and D15-names show up as violations.",
+        rule=POLICY_RULE,
+        trusted=POLICY_TRUSTED,
+        assumptions=["evaluated ranges satisfy the PrefixRange type invariant (EvValid)",
+                     "policy names are unique in a Junos configuration",
+                     "commit / rollback behaviour is C04's subject: C01 is about the configuration after all loads"],
+    ),
+    "C02": dict(
+        thm=["Bgpfu.Thm.C02"],
+        ops=[("plan", ["prop=C02", "variant=fixed"])],
+        level_text="Theorems (for the repaired and the pinned writer alike): from every agent state, each single emitted update "
+                   "loads and leaves a policy whose accepting terms each have one of the two families and a non-empty route-filter "
+                   "list inside the evaluated set of that family, ending in an unconditional reject (each_update_safe); the same "
+                   "after every prefix of every permutation of the update list, all other policies being untouched "
+                   "(every_prefix_safe); such a policy accepts a route only if an evaluated range of the route's family matches "
+                   "it (accept_subset); every element written lies on configuration/policy-options/policy-statement (payload_rooted).",
+        level_note="Domain: the agent's own ephemeral instance (AgentState); foreign_state_cex shows a readable foreign state "
+                   "(accepting term without route-filters) that a run does not repair. raw_names_stale_cex: with raw names "
+                   "(D15) stale ranges are never deleted -- reported by the run as class name-mangled.",
+        rule=POLICY_RULE + "; the C02 predicate is evaluated after each single payload and after every prefix of the emitted "
+                           "order, its reverse and a rotation",
+        trusted=POLICY_TRUSTED,
+        assumptions=["the reader sees the true policy names (c.unescapeNames)", "protocol default when no term and no default action matches is accept"],
+    ),
+    "C03": dict(
+        thm=["Bgpfu.Thm.C03"],
+        ops=[("plan", ["prop=C03", "variant=fixed"])],
+        level_text="Theorems: a candidate whose evaluation failed gets neither update nor delete and its installed policy is "
+                   "literally unchanged after the run -- for every variant of the code, every configuration and every order of the "
+                   "updates (failed_eval_no_update, failed_eval_untouched); deletes only for installed non-candidates "
+                   "(delete_only_unmanaged); with the repaired candidate reader a still-marked statement whose annotation is "
+                   "malformed or whose expression cannot be evaluated is untouched, and deletes go only to policies no longer "
+                   "marked (malformed_annotation_untouched, unevaluable_annotation_untouched, delete_only_unmarked, "
+                   "unobtainable_untouched_run). Counter-example for the pinned reader: malformed_annotation_pinned_cex (D10).",
+        level_note="The resolver clause (unknown as-set => evaluation error, lib/src/query.rs) belongs to the IRR model "
+                   "(evalseq op) and is not claimed here: a failed evaluation enters as `ranges: None`, which is what eval.rs "
+                   "records for every error. Malformed annotations are fed through the real candidate reader.",
+        rule=POLICY_RULE,
+        trusted=POLICY_TRUSTED,
+        assumptions=["statement names are unique in the running configuration"],
+    ),
     "C06": dict(
         thm=["Bgpfu.Thm.C06"],
         ops=[("frame", ["only-open"])],
